@@ -225,6 +225,76 @@ def e2e(rep, tier, seed):
     return found
 
 
+def crate_stream(rep, tier, seed):
+    """several files formatted in ONE run of the real binary: skipped items and over-wide lines at known places in every file;
+    the diagnostics on stderr (file and 1-based line of the emitted text) must be exactly the over-wide lines that are not
+    inside a skip-marked item, file by file -- whatever stands before them and whatever the other files contain"""
+    import os
+    import random
+    import re
+    import shutil
+    ok, blog, _ = common.build_bins()
+    if not ok:
+        raise RuntimeError("build of /repo binaries failed:\n" + blog)
+    env = common.rust_env()
+    env.pop("CARGO_TARGET_DIR", None)
+    rnd = random.Random("c07-crate-%d" % seed)
+    base = os.path.join(common.CACHE, "c07crate")
+    found = n = 0
+    W = 60
+    wide = lambda tag: "    let %s = %s;" % (tag, "w" * 70)          # no string literal: those lines are only reported under error_on_unformatted
+    for ti in range(16 if tier != "thorough" else 160):
+        shutil.rmtree(base, ignore_errors=True)
+        os.makedirs(base)
+        names = ["aaa", "mmm", "zzz"][:rnd.randint(1, 3)]
+        files = {"main.rs": "".join("mod %s;\n" % x for x in names)}
+        for x in names:
+            files[x + ".rs"] = ""
+        for fname in files:
+            parts = [files[fname]]
+            for bi in range(rnd.randint(2, 5)):
+                k = rnd.random()
+                tag = "%s_%d" % (fname[:-3], bi)
+                if k < 0.3:
+                    # a skip-marked item holding an over-wide line (never reported) ...
+                    parts.append("#[rustfmt::skip]\nconst SKIP_%s: u8 =\n    %s;\n" % (tag.upper(), "s" * 75))
+                elif k < 0.55:
+                    # ... code whose formatting changes the number of lines before whatever follows
+                    parts.append(rnd.choice(["fn   grow_%s( ) { a(); b(); }\n", "fn shrink_%s(\n    a: u8,\n    b: u8,\n) {\n}\n", "\n\n\nfn gap_%s() {}\n"]) % tag)
+                elif k < 0.85:
+                    # ... a function with an unavoidably over-wide line (always reported)
+                    parts.append("fn wide_%s() {\n%s\n}\n" % (tag, wide("CHECKED_" + tag)))
+                else:
+                    parts.append("fn plain_%s() {}\n" % tag)
+            files[fname] = "".join(parts)
+        for fname, text in files.items():
+            open(os.path.join(base, fname), "w").write(text)
+        rc, o, e = common.sh([common.bin_path("rustfmt"), "--edition", "2021", "--color", "never", "--config", "max_width=%d,error_on_line_overflow=true" % W, "main.rs"], cwd=base, env=env, timeout=60)
+        n += 1
+        got = set()
+        e = re.sub(r"\x1b\[[0-9;]*m", "", e)
+        for m in re.finditer(r"--> (\S+?):(\d+):", e):
+            got.add((os.path.basename(m.group(1)), int(m.group(2))))
+        want = set()
+        for fname in files:
+            lines = open(os.path.join(base, fname)).read().split("\n")
+            skip_until = -1
+            for i, ln in enumerate(lines, 1):
+                if ln.strip() == "#[rustfmt::skip]":
+                    skip_until = i + 2                      # the attribute line and the two lines of the const
+                if len(ln) > W and i > skip_until:
+                    want.add((fname, i))
+        if got != want or (want and rc != 1):
+            after = {f: open(os.path.join(base, f)).read() for f in files}
+            if rep.violation("crate_diagnostics", {"files": files, "after": after, "reported": sorted(got), "expected": sorted(want), "rc": rc, "stderr": e[-1500:]},
+                             "one run over %d files: reported %r, but the over-wide lines of the emitted texts outside skip-marked items are %r (exit %d)" % (len(files), sorted(got), sorted(want), rc)):
+                found += 1
+    shutil.rmtree(base, ignore_errors=True)
+    rep.coverage["crate_runs"] = n
+    rep.coverage["crate_rule"] = "crates of 2..4 files (skip-marked constants holding an over-wide line, functions with an unavoidably over-wide line, code that grows / shrinks when formatted, in random order in every file) formatted in one run of the real binary with error_on_line_overflow: the (file, line) pairs of the diagnostics must be exactly the over-wide lines of the emitted files outside the skip-marked items, and the exit status 1 iff there is one"
+    return found
+
+
 def run(tier, seed, replay):
     # the model needs the implementation's CharClasses stream: run the harness once to fetch it
     def gen(tier_, seed_):
@@ -246,7 +316,7 @@ def run(tier, seed, replay):
         imports="From V Require Import Base.Text C07.Model C07.Run.\nOpen Scope N_scope.",
         model_expr=model_expr, canon_model=canon_model, canon_impl=canon_impl, oracle=oracle,
         nontrivial=nontrivial,
-        extra=e2e,
+        extra=lambda rep, tier, seed: (e2e(rep, tier, seed) or 0) + crate_stream(rep, tier, seed),
         rule="seeded random texts of 1..8 lines built from code / long runs / tabs / trailing blanks (space, tab, U+00A0, U+3000) / line and block comments / strings spanning lines / CRLF, with 0..3 trailing newlines; max_width in {20,25,30,40,60,100}, tab_spaces 1..8, both error options on/off, random skipped ranges and line selections; non-trivial = at least one diagnostic; distinct by hash",
         per_file=100,
     )
